@@ -3,8 +3,8 @@
 # Applies the patch to a scratch copy of /repo (never /repo itself), verifies the demonstration both
 # ways, runs the check against the scratch copy, and restores the copy.
 PID=$1; D=$2; TIER=${3:-quick}
-S=/tmp/main/repo
-[ -d $S/.git ] || { mkdir -p /tmp/main && cp -r /repo $S; }
+S=${SCRATCH:-/tmp/main}/repo
+[ -d $S/.git ] || { mkdir -p $(dirname $S) && cp -r /repo $S; }
 cd $S && git checkout -q -- . && git clean -fdq chempy >/dev/null 2>&1
 if [ "$(git -C /repo rev-parse HEAD)" != "$(git rev-parse HEAD)" ]; then rm -rf $S && cp -r /repo $S && cd $S; fi
 PYTHONPATH=$S timeout 120 /venv/bin/python $D/demo.py >/dev/null 2>&1; a=$?
